@@ -85,7 +85,7 @@ type ByteOrder uint8
 type Registers struct {
 	defaultByteOrder ByteOrder
 	startAddress     uint16
-	endAddress       uint16 // end address is not addressable. endAddress-1 is last addressable register (2 bytes)
+	endAddress       uint32 // end address is not addressable. endAddress-1 is last addressable register (2 bytes). NB: can be 65536
 	data             []byte
 }
 
@@ -101,7 +101,7 @@ func NewRegisters(data []byte, startAddress uint16) (*Registers, error) {
 	return &Registers{
 		defaultByteOrder: BigEndianHighWordFirst,
 		startAddress:     startAddress,
-		endAddress:       startAddress + uint16(dataLen/2),
+		endAddress:       uint32(startAddress) + uint32(dataLen/2),
 		data:             data,
 	}, nil
 }
@@ -125,7 +125,7 @@ func (r Registers) register(address uint16) ([]byte, error) {
 	if address < r.startAddress {
 		return nil, errors.New("address under startAddress bounds")
 	}
-	if address >= r.endAddress {
+	if uint32(address) >= r.endAddress {
 		return nil, errors.New("address over startAddress+quantity bounds")
 	}
 	startIndex := (address - r.startAddress) * 2
@@ -145,7 +145,7 @@ func (r Registers) doubleRegister(address uint16, byteOrder ByteOrder) ([]byte, 
 	if address < r.startAddress {
 		return nil, errors.New("address under startAddress bounds")
 	}
-	if address > (r.endAddress - 2) {
+	if uint32(address)+2 > r.endAddress {
 		return nil, errors.New("address over startAddress+quantity bounds")
 	}
 	startIndex := (address - r.startAddress) * 2
@@ -175,7 +175,7 @@ func (r Registers) quadRegister(address uint16, byteOrder ByteOrder) ([]byte, er
 	if address < r.startAddress {
 		return nil, errors.New("address under startAddress bounds")
 	}
-	if address > (r.endAddress - 4) {
+	if uint32(address)+4 > r.endAddress {
 		return nil, errors.New("address over startAddress+quantity bounds")
 	}
 	startIndex := (address - r.startAddress) * 2
